@@ -12,17 +12,19 @@ import interstitial_common as ic
 
 META = dict(
     id='C02',
-    lean_modules=['OnsagerProofs.Lemmas.Variational', 'OnsagerModel.C02', 'OnsagerProofs.C02'],
+    lean_modules=['OnsagerProofs.Lemmas.Variational', 'OnsagerModel.C02', 'OnsagerProofs.C02', 'OnsagerProofs.C02Alg'],
     theorems=['Onsager.Var.cross_zero', 'Onsager.Var.Q_split', 'Onsager.Var.Q_min', 'Onsager.Var.Q_stationary_eq',
               'Onsager.Var.Q_stationary_unique', 'Onsager.C02.solve_sound', 'Onsager.C02.component_eq_Qmin',
-              'Onsager.C02.value_indep_of_solution', 'Onsager.C02.correction_nonpos'],
+              'Onsager.C02.value_indep_of_solution', 'Onsager.C02.correction_nonpos', 'Onsager.C02.form_eq_Qmin',
+              'Onsager.C02Alg.symm_to_stationary', 'Onsager.C02Alg.code_value_eq_Qmin'],
     tie_theorems=[],
     level_text='Kernel-checked: for every finite reversible network over any ordered field the stationary value D0 - sum xi_i B_i '
                'is the global minimum of the Green-Kubo/variational functional (the definition of the exact diffusivity), is '
                'independent of which solution of the (singular) rate equation is used, and the executable exact model returns '
-               'exactly that value (its Gauss-Jordan result is certified by a decidable stationarity check). The Python algorithm '
-               '(symmetrised rates, vector-basis projection, solve/pinv) and GFCrystalcalc.D are tied to the model by '
-               'correspondence on generated networks; that link is tested, not proved.',
+               'exactly that value (its Gauss-Jordan result is certified by a decidable stationarity check). The code\'s own algorithm is '
+               'covered by code_value_eq_Qmin: D0 + bias.gamma is the global minimum whenever gamma solves the symmetrised equation in '
+               'full site space; that residual is measured on every case (certificate), so solve/pinv and the vector basis are not '
+               'trusted. GFCrystalcalc.D and the floating-point evaluation are tied by correspondence on generated networks.',
     level_note='Trusted: Lean kernel + standard axioms; identification of "exact long-time diffusivity" with min Q (DESIGN.md 2); '
                'rationalisation of jump vectors in lattice coordinates; numpy/scipy solve and pinv are modelled as certificates.',
     technique='Lean 4 variational theorem + certified exact rational model + differential comparison with Interstitial.diffusivity and GFCrystalcalc.D',
@@ -38,6 +40,26 @@ DRIVER = 'Drive/C02.lean'
 
 def _tol(scale, data):
     return 1e-9 * scale + 1e-13 * scale * min(ic.rate_spread(data), 1e9)
+
+
+def certificate(diffuser, args):
+    """Site-space certificate for OnsagerProofs/C02Alg.lean: the gamma the code solves for (in the span of its vector
+    basis), lifted to site space, must satisfy omega.gamma = bias component by component.  Returns (residual, D0+bias.gamma)."""
+    pre, be, preT, beT = args
+    N, dim = diffuser.N, diffuser.dim
+    rho = diffuser.siteprob(pre, be); sq = np.sqrt(rho)
+    omega = np.zeros((N, N)); bias = np.zeros((N, dim)); D0 = np.zeros((dim, dim))
+    for cls, rates, srates in zip(diffuser.jumpnetwork, diffuser.ratelist(*args), diffuser.symmratelist(*args)):
+        for ((i, j), dx), rate, sr in zip(cls, rates, srates):
+            omega[i, j] += sr; omega[i, i] -= rate; bias[i] += sq[i] * rate * dx; D0 += 0.5 * np.outer(dx, dx) * rho[i] * rate
+    gamma = np.zeros((N, dim))
+    if diffuser.NV > 0:
+        VB = diffuser.VectorBasis
+        om_v = np.array([[np.tensordot(va, omega @ vb, ((0, 1), (0, 1))) for vb in VB] for va in VB])
+        b_v = np.array([np.tensordot(bias, va, ((0, 1), (0, 1))) for va in VB])
+        g_v = diffuser.bias_solver(om_v, b_v)
+        gamma = sum(g * va for g, va in zip(g_v, VB))
+    return np.abs(omega @ gamma - bias).max(), D0 + bias.T @ gamma, np.abs(bias).max()
 
 
 def build_cases(ctx, ncases, emax):
@@ -84,6 +106,11 @@ def run(ctx):
                  sample=dict(network=name, request=line[:200], D_model=Dm.tolist(), D_impl=np.asarray(Dpy).tolist()))
         ctx.count('net:' + name); ctx.count('branch:' + ('solve' if diffuser.omega_invertible else 'pinv') + (':NV>0' if diffuser.NV else ':NV=0'))
         if np.abs(Dm - D0m).max() > 1e-6 * scale: ctx.count('correlated')
+        res, Dcert, bscale = certificate(diffuser, args)
+        ctx.count('certificate-checked')
+        if res > 1e-9 * max(bscale, np.sqrt(scale)) + tol or np.abs(Dcert - np.asarray(Dpy)).max() > tol:
+            ctx.disagree('site-space certificate fails: |omega.gamma - bias| = %.3g, |D0+bias.gamma - D| = %.3g (hypothesis of code_value_eq_Qmin)'
+                         % (res, np.abs(Dcert - np.asarray(Dpy)).max()), dict(rep, residual=float(res)))
         err = np.abs(np.asarray(Dpy) - Dm).max()
         if not (err <= tol):
             # decide whose side the truth is on with the independent float oracle
